@@ -60,6 +60,7 @@ def gen_sequence(rng):
     s.add('open t0 rw', None)                      # h0
     s.add('create h0 0=u:4 0x100=u:0x1f 0x11=x:%s 0x104=b:1 0x105=b:1 1=b:0 2=b:0 0x103=b:0' % key, None)   # h1 AES
     s.add('create h0 0=u:4 0x100=u:0x10 0x11=x:%s 0x108=b:1 0x10a=b:1 1=b:0 2=b:0 0x103=b:0' % (key * 3)[:96], None)   # h2 generic (HMAC, 48 bytes)
+    s.hmac_key = bytes.fromhex((key * 3)[:96])
     for _round in range(rng.randint(1, 3)):
         mname = rng.choice(sorted(MECH))
         mech, mode, pad, tag = MECH[mname]
@@ -172,7 +173,7 @@ def run_sequence(lib, p11drv, opdrv, seed, idx):
     dis = None
     alarms = []
     ct = b''
-    state = {'in': 0, 'out': 0, 'tag': 0, 'active': None}
+    state = {'in': 0, 'out': 0, 'tag': 0, 'active': None, 'hmac_key': getattr(s, 'hmac_key', None)}
 
     def real(line):
         rp.stdin.write(line + '\n')
@@ -193,6 +194,21 @@ def run_sequence(lib, p11drv, opdrv, seed, idx):
         if why and dis is None:
             dis = (len(trace) - 1, why)
         return r, mr
+
+    rt = {'pt_in': b'', 'pt_out': b'', 'whole': True, 'enc_done': False}
+
+    def completed(kind, phase, data, r):
+        """round trip of contents: what is decrypted from the library's own ciphertext is the data fed ONCE per call, however
+        many length queries and too-small buffers preceded the call that completed"""
+        if kind == 'enc' and phase != 'final':
+            rt['pt_in'] += data or b''
+        if kind == 'enc' and phase in ('final', 'single'):
+            rt['enc_done'] = True
+        if kind == 'dec':
+            o = r.get('out', '')
+            rt['pt_out'] += bytes.fromhex(o) if o not in ('', '.') else b''
+            if phase in ('final', 'single') and rt['whole'] and rt['enc_done'] and rt['pt_out'] != rt['pt_in']:
+                alarms.append((len(trace) - 1, 'decrypting the ciphertext the library produced gives %d bytes that are not the %d bytes fed to the encryption once (length queries or CKR_BUFFER_TOO_SMALL answers changed an operation)' % (len(rt['pt_out']), len(rt['pt_in']))))
 
     def do_io(kind, phase, data, collect):
         """one logical call with its size-query / too-small preliminaries, then a sufficient buffer"""
@@ -229,6 +245,7 @@ def run_sequence(lib, p11drv, opdrv, seed, idx):
                 # the small buffer was enough after all: the call is complete
                 if collect:
                     ct += bytes.fromhex(r.get('out', ''))
+                completed(kind, phase, data, r)
                 return
             if r.get('rv') in ('0x0', '0x150') and 'len' in r:
                 need = int(r['len'])
@@ -246,6 +263,8 @@ def run_sequence(lib, p11drv, opdrv, seed, idx):
             break
         if collect and r.get('rv') == '0x0':
             ct += bytes.fromhex(r.get('out', ''))
+        if r.get('rv') == '0x0':
+            completed(kind, phase, data, r)
 
     try:
         for (rl, ml, meta) in s.steps:
@@ -260,6 +279,7 @@ def run_sequence(lib, p11drv, opdrv, seed, idx):
                     data = ct
                 elif (meta.get('usect') or '').startswith('trunc'):
                     data = ct[:int(meta['usect'][5:])]
+                    rt['whole'] = False
                 do_io(kind, phase, data, meta.get('collect'))
                 continue
             if meta.get('plan_dec'):
@@ -277,6 +297,9 @@ def run_sequence(lib, p11drv, opdrv, seed, idx):
                 continue
             if meta.get('init') and rl.startswith('encinit'):
                 ct = b''
+                rt['pt_in'], rt['whole'], rt['enc_done'] = b'', True, False
+            if meta.get('init') and rl.startswith('decinit'):
+                rt['pt_out'] = b''
             r, mr = both(rl, ml, meta)
             if meta.get('init') and ml is not None and r.get('rv') != '0x0':
                 break      # the mechanism is not available: nothing to compare further
@@ -323,6 +346,24 @@ def monitor_step(line, r, st, alarms, i):
         alarms.append((i, 'the process died'))
         return
     rv = int(r['rv'], 16)
+    # digest / HMAC contents: a length query or CKR_BUFFER_TOO_SMALL leaves the operation UNCHANGED, so the value finally
+    # returned is the SHA-256 / HMAC-SHA-256 of exactly the data fed by the calls that were not mere queries
+    if op in ('digestinit', 'signinit') and rv == OK:
+        st['fix'] = {'kind': op[:3], 'data': bytearray(), 'key': st.get('hmac_key')} if (w[2] in ('0x250', '0x251')) else None
+    elif st.get('fix') and op in ('digestupd', 'signupd') and st['fix']['kind'] == op[:3] and rv == OK:
+        st['fix']['data'] += bytes.fromhex(w[2]) if w[2] != '.' else b''
+    elif st.get('fix') and op in ('digest', 'sign', 'digestfin', 'signfin') and st['fix']['kind'] == op[:3]:
+        single = op in ('digest', 'sign')
+        if rv == OK and w[-1] != 'null' and 'out' in r:
+            import hashlib, hmac as _hmac
+            data = bytes(st['fix']['data']) + (bytes.fromhex(w[2]) if single and w[2] != '.' else b'')
+            exp = hashlib.sha256(data).digest() if st['fix']['kind'] == 'dig' else (_hmac.new(st['fix']['key'], data, hashlib.sha256).digest() if st['fix']['key'] else None)
+            got = bytes.fromhex(r['out']) if r['out'] not in ('', '.') else b''
+            if exp is not None and got != exp:
+                alarms.append((i, 'the %s returned after length queries / CKR_BUFFER_TOO_SMALL answers is not that of the data fed once: the queries changed the operation' % ('digest' if st['fix']['kind'] == 'dig' else 'MAC')))
+            st['fix'] = None
+        elif rv not in (OK, SMALL):
+            st['fix'] = None
     if op in ('encinit', 'decinit') and rv == OK:
         st['in'] = st['out'] = 0
         st['active'] = op[:3]
